@@ -1,4 +1,9 @@
 """Which contract modules and bounded harnesses decide which property."""
+UNITS_CORE = ["contracts.units_fraction", "contracts.units_magnitude", "contracts.units_convert"]
 PROPS = {
+    "C05": dict(contracts=["contracts.units_nonlinear"], bounded="bounded.c05", level="proof",
+                assumptions=["log10/pow10/ln/exp are uninterpreted real functions with exactly the axioms: pow10(log10 y)=y and exp(ln y)=y for y>0, log10(pow10 x)=x, ln(exp x)=x, pow10 x>0, exp x>0",
+                             "numeric coefficients inside log10/ln/exp/pow10 arguments are rounded to 13 significant digits (float rounding of table constants)"]),
+    "C04": dict(contracts=UNITS_CORE, bounded="bounded.c04", level="proof"),
     "C20": dict(contracts=["contracts.c20_grid", "contracts.c20_tables"], bounded="bounded.c20", level="proof"),
 }
